@@ -356,6 +356,9 @@ func (p *Parser) parseMergeStatement() (ast.Statement, error) {
 	// Parse target table
 	tableRef, err := p.parseTableReference()
 	if err != nil {
+		if isRecursionLimit(err) {
+			return nil, err // a limit violation keeps its own code
+		}
 		return nil, goerrors.WrapError(goerrors.ErrCodeInvalidSyntax, "error parsing MERGE target table", models.Location{}, "", err)
 	}
 	stmt.TargetTable = *tableRef
@@ -382,6 +385,9 @@ func (p *Parser) parseMergeStatement() (ast.Statement, error) {
 	// Parse source table (could be a table or subquery)
 	sourceRef, err := p.parseTableReference()
 	if err != nil {
+		if isRecursionLimit(err) {
+			return nil, err // a limit violation keeps its own code
+		}
 		return nil, goerrors.WrapError(goerrors.ErrCodeInvalidSyntax, "error parsing MERGE source", models.Location{}, "", err)
 	}
 	stmt.SourceTable = *sourceRef
@@ -407,6 +413,9 @@ func (p *Parser) parseMergeStatement() (ast.Statement, error) {
 
 	onCondition, err := p.parseExpression()
 	if err != nil {
+		if isRecursionLimit(err) {
+			return nil, err // a limit violation keeps its own code
+		}
 		return nil, goerrors.WrapError(goerrors.ErrCodeInvalidSyntax, "error parsing MERGE ON condition", models.Location{}, "", err)
 	}
 	stmt.OnCondition = onCondition
@@ -464,6 +473,9 @@ func (p *Parser) parseMergeWhenClause() (*ast.MergeWhenClause, error) {
 		p.advance() // Consume AND
 		condition, err := p.parseExpression()
 		if err != nil {
+			if isRecursionLimit(err) {
+				return nil, err // a limit violation keeps its own code
+			}
 			return nil, goerrors.WrapError(goerrors.ErrCodeInvalidSyntax, "error parsing WHEN condition", models.Location{}, "", err)
 		}
 		clause.Condition = condition
@@ -527,6 +539,9 @@ func (p *Parser) parseMergeAction(clauseType string) (*ast.MergeAction, error) {
 
 			value, err := p.parseExpression()
 			if err != nil {
+				if isRecursionLimit(err) {
+					return nil, err // a limit violation keeps its own code
+				}
 				return nil, goerrors.WrapError(goerrors.ErrCodeInvalidSyntax, "error parsing SET value", models.Location{}, "", err)
 			}
 			setClause.Value = value
@@ -583,6 +598,9 @@ func (p *Parser) parseMergeAction(clauseType string) (*ast.MergeAction, error) {
 			for {
 				value, err := p.parseExpression()
 				if err != nil {
+					if isRecursionLimit(err) {
+						return nil, err // a limit violation keeps its own code
+					}
 					return nil, goerrors.WrapError(goerrors.ErrCodeInvalidSyntax, "error parsing INSERT value", models.Location{}, "", err)
 				}
 				action.Values = append(action.Values, value)
